@@ -2568,14 +2568,15 @@ func compDefineX(sc *scope, n *node) error {
 		// A variable can be redeclared if at least one other not blank variable is created.
 		// The redeclared variable must be of same type (it is reassigned, not created).
 		// Careful to not reuse a variable which has been shadowed (it must not be a newSym).
-		sym, level, ok := sc.lookup(id)
+		// The symbol found is the one of the current scope, as it is not new.
+		sym, _, ok := sc.lookup(id)
 		canRedeclare := hasNewSymbol && len(symIsNew) > 1 && !symIsNew[id] && ok
-		if canRedeclare && level == n.child[i].level && sym.kind == varSym && sym.typ.id() == t.id() {
+		if canRedeclare && sym.kind == varSym && sym.typ.id() == t.id() {
 			index = sym.index
 			n.child[i].redeclared = true
 		} else {
 			index = sc.add(t)
-			sc.sym[id] = &symbol{index: index, kind: varSym, typ: t}
+			sc.sym[id] = &symbol{index: index, kind: varSym, typ: t, global: sc.global}
 		}
 		n.child[i].typ = t
 		n.child[i].findex = index
